@@ -46,7 +46,16 @@ CONSTANTS Validators,    \* validators Vouch holds accounts for          (subset
           MaxInFlight,   \* concurrent operations
           AuctionImpl,   \* "intended" | "pinned"
           FailKinds,     \* failing answers of the source: subset of {"error", "malformed", "empty"}
-          MaxRounds      \* bound on rounds+fetches of the registration part (model checking only)
+          MaxRounds,     \* bound on rounds+fetches of the registration part (model checking only)
+          Resolution     \* how ProposerConfig / auctionBlock work out a validator's settings:
+                         \*   "locked"      under the configuration read lock (the code as written)
+                         \*   "snapshot"    the configuration is read under the lock, the settings are worked out
+                         \*                 from that snapshot after the lock was released (equally permitted)
+                         \*   "memo"        CONTROL MODEL, not permitted: as snapshot, and the result is kept per
+                         \*                 validator in a memo that every fetch empties (right on every fresh
+                         \*                 instance and in every sequential history)
+                         \*   "memochecked" as memo, but a result is only kept while its configuration is still
+                         \*                 the active one (permitted: the property does not forbid remembering)
 
 AllV == Validators \cup Externals
 
@@ -78,6 +87,7 @@ Catalogue(k) ==
 
 ASSUME /\ Validators \subseteq {1, 2} /\ Externals \subseteq {3} /\ Relays = {1, 2} /\ DocIds \subseteq 1..6
        /\ AuctionImpl \in {"intended", "pinned"}
+       /\ Resolution \in {"locked", "snapshot", "memo", "memochecked"}
 
 (* What ProposerConfig is to answer for validator v when document d is active; d = 0 is the      *)
 (* configuration Vouch starts with (empty version-2 configuration: fallback values, no relays).   *)
@@ -96,6 +106,11 @@ Outcomes == {[t |-> "good", doc |-> k] : k \in DocIds}
 
 NoOutcome == [t |-> "none", doc |-> 0]
 NoRes == [ok |-> TRUE, fee |-> 0, rel |-> {}, src |-> 0, bid |-> "none"]
+NoMemo == -1
+\* the second forwarding lane at rest
+NoFw == [on |-> FALSE, ended |-> FALSE, in |-> {}, cfg |-> 0, ctl |-> {},
+         sent |-> [r \in Relays |-> {}], call |-> [r \in Relays |-> "idle"],
+         pend |-> [r \in Relays |-> {}], got |-> [r \in Relays |-> {}], cx |-> {}]
 
 -----------------------------------------------------------------------------
 VARIABLES active,     \* document id of the active configuration (0 = initial)
@@ -104,6 +119,10 @@ VARIABLES active,     \* document id of the active configuration (0 = initial)
           writer,     \* executionConfigMu: write lock held
           waiting,    \* executionConfigMu: operations blocked in Lock() (they block new readers)
           pc, kind, arg, got, res,   \* per operation instance
+          snap,       \* per operation: the configuration it read (Resolution # "locked")
+          during,     \* per operation: the configurations that were in force at some time during the call
+          memo,       \* per validator: document the remembered settings were worked out from, or NoMemo
+                      \* (control model Resolution = "memo" / "memochecked" only; state carried between calls)
           \* registration part
           phase,        \* "idle" | "reg" | "prep" | "fwd"
           lastKind,     \* kind of the last round that started
@@ -124,14 +143,22 @@ VARIABLES active,     \* document id of the active configuration (0 = initial)
           signedEver,   \* <<v,fee,gas>> ever signed successfully
           latestSigned, \* per validator: <<fee,gas>> of the last successful signing, or <<>>
           controlled,   \* validators of the last registration round
-          rounds        \* counter (bounds model checking only)
+          rounds,       \* counter (bounds model checking only)
+          fw,           \* the second forwarding lane: a REST forwarding call that runs WHILE a registration round
+                        \* is in flight (ValidatorRegistrations and the periodic round both end in the relay fan-out);
+                        \* a record of its own, so that the two calls' submissions are judged apart
+          slotHeld      \* relays whose submission slot is taken - exists ONLY in the control models
+                        \* SpecC11Slot(leaky): a per-relay slot kept on the service across rounds
 
 cfgVars  == <<active, lastGood>>
 lockVars == <<readers, writer, waiting>>
-opVars   == <<pc, kind, arg, got, res>>
+auxVars  == <<snap, during, memo>>
+opVars   == <<pc, kind, arg, got, res, auxVars>>
 callVars == <<callR, callN, callP, pendR, gotR, cancelled>>
-regVars  == <<phase, lastKind, rAccts, rCfg, rLatest0, rSigned, rFailed, sentR, doneR, sentN, doneN,
+regCore  == <<phase, lastKind, rAccts, rCfg, rLatest0, rSigned, rFailed, sentR, doneR, sentN, doneN,
               prepN, donePrep, fwdIn, signedEver, latestSigned, controlled, rounds, callVars>>
+devVars  == <<fw, slotHeld>>
+regVars  == <<regCore, devVars>>
 vars     == <<cfgVars, lockVars, opVars, regVars>>
 
 InitCfg == active = 0 /\ lastGood = 0
@@ -142,6 +169,9 @@ InitOps ==
     /\ arg = [o \in Ops |-> 0]
     /\ got = [o \in Ops |-> NoOutcome]
     /\ res = [o \in Ops |-> NoRes]
+    /\ snap = [o \in Ops |-> 0]
+    /\ during = [o \in Ops |-> {}]
+    /\ memo = [v \in AllV |-> NoMemo]
 InitReg ==
     /\ phase = "idle" /\ lastKind = "none"
     /\ rAccts = {} /\ rCfg = 0
@@ -158,6 +188,8 @@ InitReg ==
     /\ latestSigned = [v \in AllV |-> <<>>]
     /\ controlled = {}
     /\ rounds = 0
+    /\ fw = NoFw
+    /\ slotHeld = {}
 Init == InitCfg /\ InitLock /\ InitOps /\ InitReg
 
 
@@ -174,6 +206,9 @@ SetPc(o, p) == pc' = [pc EXCEPT ![o] = p]
 SetRes(o, r) == res' = [res EXCEPT ![o] = r]
 
 \* Env_SingleFetcher: the scheduler never runs the periodic fetch job twice at the same time.
+\* A call is an interval on the one long-lived service instance: Start(o) ... Return(o); calls overlap as the
+\* environment (scheduler, REST daemon, proposal preparer, auctions) decides.  during[o] collects every
+\* configuration that is in force at some time of the interval.
 Start(o, k, a) ==
     /\ pc[o] = "idle"
     /\ \A p \in Ops : p < o => pc[p] # "idle"
@@ -185,20 +220,21 @@ Start(o, k, a) ==
     /\ SetPc(o, "start")
     /\ kind' = [kind EXCEPT ![o] = k]
     /\ arg' = [arg EXCEPT ![o] = a]
-    /\ UNCHANGED <<cfgVars, lockVars, got, res, regVars>>
+    /\ during' = [during EXCEPT ![o] = {active}]
+    /\ UNCHANGED <<cfgVars, lockVars, got, res, snap, memo, regVars>>
 
 \* ---- fetchExecutionConfig ----
 FetchRLock(o) ==
     /\ pc[o] = "start" /\ kind[o] = "fetch" /\ CanRLock
     /\ readers' = readers + 1
     /\ SetPc(o, "f_r")
-    /\ UNCHANGED <<cfgVars, writer, waiting, kind, arg, got, res, regVars>>
+    /\ UNCHANGED <<cfgVars, writer, waiting, kind, arg, got, res, auxVars, regVars>>
 
 FetchRUnlock(o) ==
     /\ pc[o] = "f_r"
     /\ readers' = readers - 1
     /\ SetPc(o, "f_src")
-    /\ UNCHANGED <<cfgVars, writer, waiting, kind, arg, got, res, regVars>>
+    /\ UNCHANGED <<cfgVars, writer, waiting, kind, arg, got, res, auxVars, regVars>>
 
 \* the source answers: a document of the catalogue, an error, malformed or empty content
 FetchSource(o, out) ==
@@ -206,59 +242,83 @@ FetchSource(o, out) ==
     /\ got' = [got EXCEPT ![o] = out]
     /\ lastGood' = IF out.t = "good" THEN out.doc ELSE lastGood
     /\ SetPc(o, "f_got")
-    /\ UNCHANGED <<active, lockVars, kind, arg, res, regVars>>
+    /\ UNCHANGED <<active, lockVars, kind, arg, res, auxVars, regVars>>
 
 FetchLockReq(o) ==
     /\ pc[o] = "f_got"
     /\ waiting' = waiting \cup {o}
     /\ SetPc(o, "f_wait")
-    /\ UNCHANGED <<cfgVars, readers, writer, kind, arg, got, res, regVars>>
+    /\ UNCHANGED <<cfgVars, readers, writer, kind, arg, got, res, auxVars, regVars>>
 
 FetchLockAcq(o) ==
     /\ pc[o] = "f_wait" /\ readers = 0 /\ ~writer
     /\ writer' = TRUE
     /\ waiting' = waiting \ {o}
     /\ SetPc(o, "f_w")
-    /\ UNCHANGED <<cfgVars, readers, kind, arg, got, res, regVars>>
+    /\ UNCHANGED <<cfgVars, readers, kind, arg, got, res, auxVars, regVars>>
 
-\* keep-current-on-error: only a document obtained successfully replaces the active one
+\* keep-current-on-error: only a document obtained successfully replaces the active one.  The configuration
+\* installed here is in force for every call that is in flight at this moment.  (The control model empties
+\* its memo whenever the configuration is stored again.)
 FetchWriteUnlock(o) ==
     /\ pc[o] = "f_w"
     /\ active' = IF got[o].t = "good" THEN got[o].doc ELSE active
     /\ writer' = FALSE
     /\ SetPc(o, "ret")
     /\ SetRes(o, [NoRes EXCEPT !.ok = (got[o].t = "good")])
-    /\ UNCHANGED <<lastGood, readers, waiting, kind, arg, got, regVars>>
+    /\ during' = [p \in Ops |-> IF pc[p] \notin {"idle", "done"} THEN during[p] \cup {active'} ELSE during[p]]
+    /\ memo' = [v \in AllV |-> NoMemo]
+    /\ UNCHANGED <<lastGood, readers, waiting, kind, arg, got, snap, regVars>>
 
 \* the property does not oblige a failed fetch to take the write lock at all
 FetchSkipWrite(o) ==
     /\ pc[o] = "f_got" /\ got[o].t # "good"
     /\ SetPc(o, "ret")
     /\ SetRes(o, [NoRes EXCEPT !.ok = FALSE])
-    /\ UNCHANGED <<cfgVars, lockVars, kind, arg, got, regVars>>
+    /\ UNCHANGED <<cfgVars, lockVars, kind, arg, got, auxVars, regVars>>
 
 \* ---- ProposerConfig ----
 LookupRLock(o) ==
     /\ pc[o] = "start" /\ kind[o] = "lookup" /\ CanRLock
     /\ readers' = readers + 1
     /\ SetPc(o, "l_r")
-    /\ UNCHANGED <<cfgVars, writer, waiting, kind, arg, got, res, regVars>>
+    /\ UNCHANGED <<cfgVars, writer, waiting, kind, arg, got, res, auxVars, regVars>>
 
 Answer(d, v) == LET r == Resolve(d, v) IN [ok |-> r.ok, fee |-> r.fee, rel |-> r.rel, src |-> d, bid |-> "none"]
 
+Memoising == Resolution \in {"memo", "memochecked"}
+MemoHit(v) == Memoising /\ memo[v] # NoMemo
+\* what is remembered after the settings of v were worked out from document d
+MemoAfter(v, d) ==
+    IF Resolution = "memo" \/ (Resolution = "memochecked" /\ active = d)
+    THEN [memo EXCEPT ![v] = d] ELSE memo
+
+\* the read lock is released: with the settings worked out under it ("locked"), or with the configuration
+\* only read and the working out still to come ("snapshot"; the memoising designs on a miss), or with the
+\* remembered settings (the memoising designs on a hit)
 LookupRUnlock(o) ==
     /\ pc[o] = "l_r"
     /\ readers' = readers - 1
-    /\ SetRes(o, Answer(active, arg[o]))
+    /\ IF Resolution = "locked" THEN /\ SetRes(o, Answer(active, arg[o])) /\ SetPc(o, "ret") /\ UNCHANGED snap
+       ELSE IF MemoHit(arg[o]) THEN /\ SetRes(o, Answer(memo[arg[o]], arg[o])) /\ SetPc(o, "ret") /\ UNCHANGED snap
+       ELSE /\ snap' = [snap EXCEPT ![o] = active] /\ SetPc(o, "l_res") /\ UNCHANGED res
+    /\ UNCHANGED <<cfgVars, writer, waiting, kind, arg, got, during, memo, regVars>>
+
+\* the settings are worked out from the configuration read earlier (the accounts' names are asked for on the
+\* way: an interface call that can take any time)
+LookupResolve(o) ==
+    /\ pc[o] = "l_res"
+    /\ SetRes(o, Answer(snap[o], arg[o]))
     /\ SetPc(o, "ret")
-    /\ UNCHANGED <<cfgVars, writer, waiting, kind, arg, got, regVars>>
+    /\ memo' = IF Memoising THEN MemoAfter(arg[o], snap[o]) ELSE memo
+    /\ UNCHANGED <<cfgVars, lockVars, kind, arg, got, snap, during, regVars>>
 
 \* ---- auctionBlock ----
 AuctionRLock(o) ==
     /\ pc[o] = "start" /\ kind[o] = "auction" /\ CanRLock
     /\ readers' = readers + 1
     /\ SetPc(o, IF AuctionImpl = "pinned" THEN "a_outer" ELSE "a_r")
-    /\ UNCHANGED <<cfgVars, writer, waiting, kind, arg, got, res, regVars>>
+    /\ UNCHANGED <<cfgVars, writer, waiting, kind, arg, got, res, auxVars, regVars>>
 
 \* after the proposer configuration is known: error return / no relays / ask the bid strategy
 AuctionAfterConfig(o, a) ==
@@ -269,15 +329,23 @@ AuctionAfterConfig(o, a) ==
 AuctionRUnlock(o) ==
     /\ pc[o] = "a_r"
     /\ readers' = readers - 1
-    /\ AuctionAfterConfig(o, Answer(active, arg[o]))
-    /\ UNCHANGED <<cfgVars, writer, waiting, kind, arg, got, regVars>>
+    /\ IF Resolution = "locked" THEN AuctionAfterConfig(o, Answer(active, arg[o])) /\ UNCHANGED snap
+       ELSE IF MemoHit(arg[o]) THEN AuctionAfterConfig(o, Answer(memo[arg[o]], arg[o])) /\ UNCHANGED snap
+       ELSE /\ snap' = [snap EXCEPT ![o] = active] /\ SetPc(o, "a_res") /\ UNCHANGED res
+    /\ UNCHANGED <<cfgVars, writer, waiting, kind, arg, got, during, memo, regVars>>
+
+AuctionResolve(o) ==
+    /\ pc[o] = "a_res"
+    /\ AuctionAfterConfig(o, Answer(snap[o], arg[o]))
+    /\ memo' = IF Memoising THEN MemoAfter(arg[o], snap[o]) ELSE memo
+    /\ UNCHANGED <<cfgVars, lockVars, kind, arg, got, snap, during, regVars>>
 
 \* pinned tree: ProposerConfig takes the read lock again while auctionBlock holds it ...
 AuctionRLockInner(o) ==
     /\ pc[o] = "a_outer" /\ CanRLock
     /\ readers' = readers + 1
     /\ SetPc(o, "a_inner")
-    /\ UNCHANGED <<cfgVars, writer, waiting, kind, arg, got, res, regVars>>
+    /\ UNCHANGED <<cfgVars, writer, waiting, kind, arg, got, res, auxVars, regVars>>
 
 \* ... releases its own, and auctionBlock returns on error without releasing the outer one
 AuctionRUnlockInner(o) ==
@@ -286,13 +354,13 @@ AuctionRUnlockInner(o) ==
     /\ LET a == Answer(active, arg[o]) IN
          /\ SetRes(o, a)
          /\ SetPc(o, IF ~a.ok THEN "ret" ELSE "a_outer2")
-    /\ UNCHANGED <<cfgVars, writer, waiting, kind, arg, got, regVars>>
+    /\ UNCHANGED <<cfgVars, writer, waiting, kind, arg, got, auxVars, regVars>>
 
 AuctionRUnlockOuter(o) ==
     /\ pc[o] = "a_outer2"
     /\ readers' = readers - 1
     /\ SetPc(o, IF res[o].rel = {} THEN "ret" ELSE "a_bid")
-    /\ UNCHANGED <<cfgVars, writer, waiting, kind, arg, got, res, regVars>>
+    /\ UNCHANGED <<cfgVars, writer, waiting, kind, arg, got, res, auxVars, regVars>>
 
 Bids == {"win", "nobid", "err"}
 
@@ -301,26 +369,26 @@ AuctionBid(o, b) ==
     /\ pc[o] = "a_bid" /\ b \in Bids
     /\ SetRes(o, [res[o] EXCEPT !.bid = b, !.ok = (b # "err")])
     /\ SetPc(o, "ret")
-    /\ UNCHANGED <<cfgVars, lockVars, kind, arg, got, regVars>>
+    /\ UNCHANGED <<cfgVars, lockVars, kind, arg, got, auxVars, regVars>>
 
 \* ---- registration round (its content is the registration part; here it only has to return) ----
 RegisterRun(o) ==
     /\ pc[o] = "start" /\ kind[o] = "register"
     /\ SetRes(o, [NoRes EXCEPT !.src = active])
     /\ SetPc(o, "ret")
-    /\ UNCHANGED <<cfgVars, lockVars, kind, arg, got, regVars>>
+    /\ UNCHANGED <<cfgVars, lockVars, kind, arg, got, auxVars, regVars>>
 
 Return(o) ==
     /\ pc[o] = "ret"
     /\ SetPc(o, "done")
-    /\ UNCHANGED <<cfgVars, lockVars, kind, arg, got, res, regVars>>
+    /\ UNCHANGED <<cfgVars, lockVars, kind, arg, got, res, auxVars, regVars>>
 
 \* every step of an operation that is not visible at an interface
 Internal(o) ==
     \/ FetchRLock(o) \/ FetchRUnlock(o) \/ FetchLockReq(o) \/ FetchLockAcq(o)
     \/ FetchWriteUnlock(o) \/ FetchSkipWrite(o)
-    \/ LookupRLock(o) \/ LookupRUnlock(o)
-    \/ AuctionRLock(o) \/ AuctionRUnlock(o)
+    \/ LookupRLock(o) \/ LookupRUnlock(o) \/ LookupResolve(o)
+    \/ AuctionRLock(o) \/ AuctionRUnlock(o) \/ AuctionResolve(o)
     \/ AuctionRLockInner(o) \/ AuctionRUnlockInner(o) \/ AuctionRUnlockOuter(o)
     \/ RegisterRun(o)
 
@@ -342,6 +410,8 @@ TypeOKC12 ==
     /\ active \in {0} \cup DocIds /\ lastGood \in {0} \cup DocIds
     /\ readers \in 0..(2 * Cardinality(Ops)) /\ writer \in BOOLEAN /\ waiting \subseteq Ops
     /\ \A o \in Ops : kind[o] \in {"none", "fetch", "lookup", "auction", "register"}
+    /\ \A o \in Ops : snap[o] \in {0} \cup DocIds /\ during[o] \subseteq {0} \cup DocIds
+    /\ \A v \in AllV : memo[v] \in {NoMemo, 0} \cup DocIds
 
 \* C12: Vouch keeps using the last configuration it obtained successfully
 KeepsLastGood == (\A o \in Ops : pc[o] \notin {"f_got", "f_wait", "f_w"}) => active = lastGood
@@ -358,6 +428,15 @@ AnswersRight ==
     \A o \in Ops : (pc[o] \in {"ret", "done"} /\ kind[o] = "lookup") =>
         /\ res[o].src \in {0} \cup DocIds
         /\ LET r == Resolve(res[o].src, arg[o]) IN res[o].ok = r.ok /\ res[o].fee = r.fee /\ res[o].rel = r.rel
+
+\* C12 on a long-lived instance ("keeps using the last configuration it obtained successfully"): whatever
+\* happened on the instance before the call - earlier lookups and auctions for the same or other validators,
+\* earlier configurations, failed fetches - and whatever overlaps it, a lookup or auction is answered from a
+\* configuration that was in force at some time DURING that call.  The only state the property makes
+\* persistent is the active configuration (= the last good one); an answer that comes from anything else the
+\* instance carries along (a memo, a cache, a pooled result) of an earlier configuration violates it.
+AnswersInForce ==
+    \A o \in Ops : (kind[o] \in {"lookup", "auction"} /\ pc[o] \in {"a_bid", "ret", "done"}) => res[o].src \in during[o]
 
 \* C12: no sequence of refreshes and requests leaves the lock held
 LockBalanced == Quiescent => LockFree
@@ -377,9 +456,15 @@ roundVars == <<phase, lastKind, rAccts, rCfg, rLatest0, rSigned, rFailed, sentR,
                prepN, donePrep, fwdIn, callVars>>
 sigVars == <<signedEver, latestSigned>>
 
-\* the atomic rendering of a fetch (between rounds)
+\* a registration round whose registrations are generated and whose relay calls are under way: from here on
+\* the round only waits for relays and nodes, and other calls of the instance run meanwhile
+MidRound == phase = "reg" /\ \E r \in Relays : callR[r] = "flight"
+
+\* the atomic rendering of a fetch: between rounds, or WHILE a round is waiting for its relays (the fetch job and
+\* the registration job are independent scheduler jobs) - what the round submits was decided when it generated its
+\* registrations (rCfg); the next round works with the new configuration
 ConfigFetch(out) ==
-    /\ phase = "idle" /\ out \in Outcomes
+    /\ (phase = "idle" \/ MidRound) /\ ~fw.on /\ out \in Outcomes
     /\ active' = IF out.t = "good" THEN out.doc ELSE active
     /\ lastGood' = IF out.t = "good" THEN out.doc ELSE lastGood
     /\ rounds' = rounds + 1
@@ -624,20 +709,144 @@ FwdStart(regs) ==
 \* a batch is any non-empty part of what is still pending (the client sends the payload in chunks, one after the other)
 Batches(r) == (SUBSET pendR[r]) \ {{}}
 
-NextC11 ==
+\* ---- the second forwarding lane: REST registrations arriving while a registration round is in flight ----
+\* ValidatorRegistrations reads the controlled validators and the configuration when it is called
+F2Out == {x \in fw.in : x.v \notin fw.ctl /\ Resolve(fw.cfg, x.v).ok}
+F2For(r) == {x \in F2Out : \E t \in Resolve(fw.cfg, x.v).rel : t[1] = r}
+otherVars == <<cfgVars, lockVars, opVars, phase, lastKind, rAccts, rCfg, rLatest0, rSigned, rFailed, sentR, doneR, sentN,
+               doneN, prepN, donePrep, fwdIn, sigVars, controlled, callVars>>
+
+F2Start(regs) ==
+    /\ ~fw.on /\ (phase = "idle" \/ MidRound)
+    /\ regs \subseteq FwdCandidates /\ regs # {}
+    /\ fw' = [NoFw EXCEPT !.on = TRUE, !.in = regs, !.cfg = active, !.ctl = controlled]
+    /\ rounds' = rounds + 1
+    /\ UNCHANGED otherVars
+
+RecordF2RelayStart(r, regs, cx) ==
+    /\ fw.on
+    /\ fw' = [fw EXCEPT !.sent[r] = @ \cup regs, !.call[r] = "flight", !.pend[r] = @ \cup regs,
+                        !.cx = IF cx THEN @ \cup {r} ELSE @]
+    /\ UNCHANGED <<otherVars, rounds>>
+
+RecordF2RelayDeliver(r, regs) ==
+    /\ fw.on /\ fw.call[r] = "flight"
+    /\ regs # {} /\ regs \subseteq fw.pend[r]
+    /\ fw' = [fw EXCEPT !.pend[r] = @ \ regs, !.got[r] = @ \cup regs]
+    /\ UNCHANGED <<otherVars, rounds>>
+
+RecordF2RelayFinish(r, out) ==
+    /\ fw.on /\ fw.call[r] = "flight"
+    /\ out \in {"ok", "err", "ctx"}
+    /\ out = "ok" => fw.pend[r] = {}
+    /\ fw' = [fw EXCEPT !.call[r] = out, !.cx = IF out = "ctx" THEN @ \cup {r} ELSE @]
+    /\ UNCHANGED <<otherVars, rounds>>
+
+RecordF2End ==
+    /\ fw.on
+    /\ fw' = [fw EXCEPT !.on = FALSE, !.ended = TRUE]
+    /\ UNCHANGED <<otherVars, rounds>>
+
+F2RelayStart(r) ==
+    /\ fw.on /\ fw.call[r] = "idle" /\ F2For(r) # {}
+    /\ RecordF2RelayStart(r, {[v |-> x.v, fee |-> x.fee, gas |-> x.gas, sigok |-> TRUE] : x \in F2For(r)}, r \in fw.cx)
+
+F2RelayDeliver(r, B) == r \notin fw.cx /\ RecordF2RelayDeliver(r, B)
+
+F2RelayFinish(r, out) == (out = "ctx" => r \in fw.cx) /\ RecordF2RelayFinish(r, out)
+
+F2End ==
+    /\ fw.on
+    /\ \A r \in Relays : fw.call[r] # "flight" /\ (F2For(r) # {} => fw.call[r] # "idle")
+    /\ RecordF2End
+
+F2Batches(r) == (SUBSET fw.pend[r]) \ {{}}
+
+\* ---- next-state relation: calls are started by the environment (scheduler, REST daemon), and make progress ----
+StartsCore ==
     \/ \E out \in Outcomes : ConfigFetch(out)
     \/ \E accts \in SUBSET Validators : RoundStart(accts) \/ PrepStart(accts)
+    \/ \E regs \in {S \in SUBSET FwdCandidates : Cardinality(S) \in 1..2} : FwdStart(regs)
+
+\* starting, delivering to and finishing the call to a relay
+RelayCalls(r) ==
+    \/ RelayStart(r) \/ FwdRelayStart(r)
+    \/ \E B \in Batches(r) : RelayDeliver(r, B)
+    \/ \E out \in {"ok", "err", "ctx"} : RelayFinish(r, out)
+
+OtherProgress ==
     \/ \E v \in Validators, f \in 0..2, g \in 0..2, ok \in BOOLEAN : SignReq(v, f, g, ok)
-    \/ \E r \in Relays : RelayStart(r) \/ FwdRelayStart(r)
-    \/ \E r \in Relays : \E B \in Batches(r) : RelayDeliver(r, B)
-    \/ \E r \in Relays, out \in {"ok", "err", "ctx"} : RelayFinish(r, out)
     \/ \E n \in Nodes : NodeStart(n) \/ PrepCall(n)
     \/ \E n \in Nodes, out \in {"ok", "err", "ctx"} : NodeFinish(n, out)
     \/ \E n \in Nodes, out \in {"ok", "err", "notactive", "ctx"} : PrepReturn(n, out)
     \/ RoundEnd \/ PrepEnd \/ FwdEnd
-    \/ \E regs \in {S \in SUBSET FwdCandidates : Cardinality(S) \in 1..2} : FwdStart(regs)
+
+ProgressCore == (\E r \in Relays : RelayCalls(r)) \/ OtherProgress
+
+F2Starts == \E regs \in {S \in SUBSET FwdCandidates : Cardinality(S) = 1} : F2Start(regs)
+
+F2Calls(r) ==
+    \/ F2RelayStart(r)
+    \/ \E B \in F2Batches(r) : F2RelayDeliver(r, B)
+    \/ \E out \in {"ok", "err", "ctx"} : F2RelayFinish(r, out)
+
+ProgressF2 == (\E r \in Relays : F2Calls(r)) \/ F2End
+
+\* the intended design keeps nothing on the service between the rounds but the signed registrations, the
+\* controlled validators and the configuration: no slot exists
+Core(A) == A /\ UNCHANGED devVars
+Lane2(A) == A /\ UNCHANGED slotHeld
+
+NextC11 ==
+    \/ Core(StartsCore) \/ Core(ProgressCore)
+    \/ Lane2(F2Starts) \/ Lane2(ProgressF2)
 
 SpecC11 == Init /\ [][NextC11]_vars
+
+\* Every call on the long-lived instance returns, whatever happened in the earlier calls (a relay, a node, a
+\* signing request failed; a validator could not be resolved; the configuration changed): Env_Responds - relays
+\* and nodes answer every request (possibly with an error), the Go scheduler runs every goroutine.
+\* (The bound on the number of calls is a guard here, not a CONSTRAINT, so that liveness is checked on complete
+\* behaviours.)
+MoreCalls == rounds < MaxRounds
+NextC11Live ==
+    \/ MoreCalls /\ (Core(StartsCore) \/ Lane2(F2Starts))
+    \/ Core(ProgressCore) \/ Lane2(ProgressF2)
+SpecC11Live == Init /\ [][NextC11Live]_vars /\ WF_vars(Core(ProgressCore)) /\ WF_vars(Lane2(ProgressF2))
+
+RoundReturns == (phase # "idle") ~> (phase = "idle")
+F2Returns == fw.on ~> ~fw.on
+
+\* CONTROL MODELS (state carried on the instance between calls), not the intended design: "only one submission
+\* to a relay at a time" - a per-relay slot that lives on the service, taken before the relay's client is called
+\* (by the round's fan-out and by the REST lane alike) and given back afterwards.
+\*   SpecC11Slot(FALSE)  the slot is given back on every path: permitted (every invariant and RoundReturns hold;
+\*                       a forwarding call merely waits for the round's submission to that relay)
+\*   SpecC11Slot(TRUE)   the slot is given back by a statement after the error return: a relay that fails once
+\*                       keeps its slot for ever - every single round on a fresh instance is still right, the NEXT
+\*                       round that is due to that relay never returns.  TLC must reject it (RoundReturns).
+TakeSlot(r) == r \notin slotHeld /\ slotHeld' = slotHeld \cup {r}
+GiveSlot(r, out, leaky) == slotHeld' = IF leaky /\ out = "err" THEN slotHeld ELSE slotHeld \ {r}
+
+SlotProgressCore(leaky) ==
+    \/ \E r \in Relays : (RelayStart(r) \/ FwdRelayStart(r)) /\ TakeSlot(r) /\ UNCHANGED fw
+    \/ \E r \in Relays : \E B \in Batches(r) : Core(RelayDeliver(r, B))
+    \/ \E r \in Relays, out \in {"ok", "err", "ctx"} : RelayFinish(r, out) /\ GiveSlot(r, out, leaky) /\ UNCHANGED fw
+    \/ Core(OtherProgress)
+
+SlotProgressF2(leaky) ==
+    \/ \E r \in Relays : F2RelayStart(r) /\ TakeSlot(r)
+    \/ \E r \in Relays : \E B \in F2Batches(r) : Lane2(F2RelayDeliver(r, B))
+    \/ \E r \in Relays, out \in {"ok", "err", "ctx"} : F2RelayFinish(r, out) /\ GiveSlot(r, out, leaky)
+    \/ Lane2(F2End)
+
+NextC11Slot(leaky) ==
+    \/ MoreCalls /\ (Core(StartsCore) \/ Lane2(F2Starts))
+    \/ SlotProgressCore(leaky) \/ SlotProgressF2(leaky)
+SpecC11Slot(leaky) == Init /\ [][NextC11Slot(leaky)]_vars
+                      /\ WF_vars(SlotProgressCore(leaky)) /\ WF_vars(SlotProgressF2(leaky))
+SpecC11SlotDefer == SpecC11Slot(FALSE)
+SpecC11SlotLeaky == SpecC11Slot(TRUE)
 
 \* NOT the intended protocol: the calls of a fan-out share one derived context which the first call that
 \* fails cancels (errgroup.WithContext; a loop that gives up its context after a failing node).  Every other
@@ -651,7 +860,8 @@ SharedCancel(k) ==
           /\ cancelled' = cancelled \cup {<<"P", m>> : m \in Nodes}
     /\ cancelled' # cancelled
     /\ UNCHANGED <<cfgVars, lockVars, opVars, phase, lastKind, rAccts, rCfg, rLatest0, rSigned, rFailed, sentR, doneR,
-                   sentN, doneN, prepN, donePrep, fwdIn, sigVars, controlled, rounds, callR, callN, callP, pendR, gotR>>
+                   sentN, doneN, prepN, donePrep, fwdIn, sigVars, controlled, rounds, callR, callN, callP, pendR, gotR,
+                   devVars>>
 
 SpecC11SharedCancelR == Init /\ [][NextC11 \/ SharedCancel("R")]_vars
 SpecC11SharedCancelN == Init /\ [][NextC11 \/ SharedCancel("N")]_vars
@@ -704,8 +914,18 @@ ForwardedUnchanged ==
 ForwardedAll ==
     (lastKind = "fwd" /\ phase = "idle") => \A r \in Relays : FwdFor(r) \subseteq Bare(sentR[r]) /\ RelayReached(r)
 
+\* the same three statements for the forwarding call that overlaps a registration round
+F2ControlledDropped == \A r \in Relays : \A x \in fw.sent[r] : x.v \notin fw.ctl
+F2ForwardedUnchanged ==
+    \A r \in Relays : \A x \in fw.sent[r] : x.sigok /\ [v |-> x.v, fee |-> x.fee, gas |-> x.gas] \in F2For(r)
+F2Reached(r) == fw.call[r] # "err" => (fw.call[r] # "flight" /\ fw.sent[r] \subseteq fw.got[r])
+F2ForwardedAll == fw.ended => \A r \in Relays : F2For(r) \subseteq Bare(fw.sent[r]) /\ F2Reached(r)
+
 TypeOKC11 ==
     /\ phase \in {"idle", "reg", "prep", "fwd"}
+    /\ slotHeld \subseteq Relays
+    /\ fw.on \in BOOLEAN /\ fw.cx \subseteq Relays
+    /\ \A r \in Relays : fw.call[r] \in {"idle", "flight", "ok", "err", "ctx"} /\ fw.pend[r] \subseteq fw.sent[r]
     /\ rAccts \subseteq Validators /\ controlled \subseteq Validators
     /\ doneR \subseteq Relays /\ doneN \subseteq Nodes /\ donePrep \subseteq Nodes
     /\ rSigned \subseteq signedEver
@@ -719,6 +939,8 @@ TypeOKC11 ==
     /\ cancelled \subseteq ({"R"} \X Relays) \cup ({"N", "P"} \X Nodes)
 
 RoundBound == rounds <= MaxRounds
+\* model checking only: configurations that do not explore the second forwarding lane
+NoLane2 == ~fw.on
 
 \* model checking only (CONSTRAINT of the configurations with long histories, whose invariants about content,
 \* signatures and reuse do not read the calls' outcomes; the fan-out is explored in full detail - partial
